@@ -142,7 +142,13 @@ func TestC10_Precedence(t *testing.T) {
 				ms = append(ms, jv.Member{K: name, V: v})
 				atoms[i] = gen.Pick(t, "wrap-"+name, []ast.Expr{ast.Call("not_null", ast.A(ast.F(name))), ast.Call("to_array", ast.A(ast.F(name))).With(ast.Step{Kind: ast.SFlatten}),
 					&ast.Chain{Head: ast.Head{Kind: ast.HMultiList, Items: []ast.Expr{ast.F(name)}}}, (&ast.Chain{Head: ast.Head{Kind: ast.HMultiList, Items: []ast.Expr{ast.F(name)}}}).With(ast.Step{Kind: ast.SFlatten}),
-					ast.Paren(ast.F(name)), &ast.Chain{Head: ast.Head{Kind: ast.HMultiHash, Keys: []string{"a"}, Items: []ast.Expr{ast.F(name)}}}})
+					ast.Paren(ast.F(name)), &ast.Chain{Head: ast.Head{Kind: ast.HMultiHash, Keys: []string{"a"}, Items: []ast.Expr{ast.F(name)}}},
+					// a parenthesised group that ends in a selector or projection (parsers
+					// treat a closed projection, and a closed slice in particular, specially)
+					ast.Paren(ast.F(name).With(ast.Step{Kind: ast.SSlice, Start: ast.I64(1)})), ast.Paren(ast.F(name).With(ast.Step{Kind: ast.SSlice, Stop: ast.I64(1)})), ast.Paren(ast.F(name).With(ast.Step{Kind: ast.SSlice, Stride: ast.I64(-1)})),
+					ast.Paren((&ast.Chain{Head: ast.Head{Kind: ast.HCurrent}}).With(ast.Step{Kind: ast.SField, Name: name}, ast.Step{Kind: ast.SSlice, Start: ast.I64(5)})),
+					ast.Paren(ast.F(name).With(ast.Step{Kind: ast.SListStar})), ast.Paren(ast.F(name).With(ast.Step{Kind: ast.SFlatten})), ast.Paren(ast.F(name).With(ast.Step{Kind: ast.SFilter, Cond: ast.Cur()})),
+					ast.Paren(ast.F(name).With(ast.Step{Kind: ast.SIndex, Index: 0})), ast.Paren(ast.F(name).With(ast.Step{Kind: ast.SListStar}, ast.Step{Kind: ast.SField, Name: "a"}))})
 			default:
 				ms = append(ms, jv.Member{K: name, V: v})
 				atoms[i] = ast.F(name)
